@@ -33,6 +33,8 @@ impl<const N: usize> Exec<N> {
                 self.interleaving.usize(target);
             }
         }
+        // progress for the worker's watchdog: a hang is a *step* that does not end
+        crate::run::HEARTBEAT.fetch_add(1, std::sync::atomic::Ordering::Relaxed);
         let r = self.step_inner(s);
         self.view.steps_done += 1;
         match r {
